@@ -11,10 +11,23 @@ GENERIC = "ocaml/common/driver.ml"
 TOOLS = {
     "lex": ("Extract/LexExtract.v", "lexmodel", "ocaml/lex/driver.ml"),
     "echo": ("Extract/EchoExtract.v", "model", GENERIC),
+    "dxil": ("Extract/DxilExtract.v", "model", GENERIC),
+    "diag": ("Extract/DiagExtract.v", "model", GENERIC),
+    "namer": ("Extract/NamerExtract.v", "model", GENERIC),
+    "layout": ("Extract/LayoutExtract.v", "model", GENERIC),
+    "spv": ("Extract/SpvExtract.v", "model", GENERIC),
     "overrides": ("Extract/OverridesExtract.v", "model", GENERIC),
     "fold": ("Extract/FoldExtract.v", "model", GENERIC),
     "irinfo": ("Extract/IrInfoExtract.v", "model", GENERIC),
+    "irwf": ("Extract/WfExtract.v", "model", GENERIC),
+    "iface": ("Extract/IfaceExtract.v", "model", GENERIC),
+    "valid": ("Extract/ValidExtract.v", "model", GENERIC),
     "irrun": ("Extract/IrRunExtract.v", "model", GENERIC),
+    "glslrun": ("Extract/GlslRunExtract.v", "model", GENERIC),
+    "mslrun": ("Extract/MslRunExtract.v", "model", GENERIC),
+    "passmodel": ("Extract/PassExtract.v", "model", GENERIC),
+    "hlslrun": ("Extract/HlslRunExtract.v", "model", GENERIC),
+    "spvrun": ("Extract/SpvRunExtract.v", "model", GENERIC),
 }
 
 
